@@ -51,8 +51,9 @@ inline int main_impl(int argc, char** argv) {
     auto& L = reg().list;
     if (a.replay) {
         // AF|<scenario name>|<n>
-        auto p = vf::split(a.sig, '|');
-        if (p.size() >= 3) for (auto& sc : L) if (sc.name == p[1]) vf::run_scenario(sc, "AF|" + sc.name, atoll(p[2].c_str()));
+        // (a scenario name may itself contain '|': the name is what stands between the first and the last bar)
+        size_t f = a.sig.find('|'), l = a.sig.rfind('|');
+        if (f != std::string::npos && l > f) { std::string name = a.sig.substr(f + 1, l - f - 1); for (auto& sc : L) if (sc.name == name) vf::run_scenario(sc, "AF|" + sc.name, atoll(a.sig.c_str() + l + 1)); }
         vf::out().flush(); return 0;
     }
     if (a.has("list")) { for (auto& sc : L) printf("%s\n", sc.name.c_str()); return 0; }
